@@ -135,11 +135,21 @@ pub fn c11_case(fam: &str, idx: usize, seed: u64) -> Option<Case> {
                 final_reports: false,
                 plant: vec![],
         dropper: None,
+        seq_start: None,
             };
             if burst {
                 sc.paced = false;
                 sc.tx_ms = 0;
                 sc.latency_ms = 0;
+            }
+            // sequence numbers start just below the top of their width in half of the scenarios: the ids
+            // handed out must stay distinct across the wrap
+            if rng.bool() {
+                sc.seq_start = Some((0..n_ent).map(|_| match rng.below(3) {
+                    0 => VariableID::from(u16::MAX - rng.below(6) as u16),
+                    1 => VariableID::from(u32::MAX - rng.below(6) as u32),
+                    _ => VariableID::from(u64::MAX - rng.below(6)),
+                }).collect());
             }
             // loss within the hypothesis: at most 3 drops per unordered pair of entities (limit 4), plus dups / delays
             for a in 0..n_ent {
@@ -298,7 +308,7 @@ pub fn run_c11(tier: &str, seed: u64, replay: Option<&str>) -> (Meta, Report) {
         level: "exploration",
         rule: "seeded scenarios: 2-3 real daemons, 4-40 transfers with distinct tagged files started within 60 ms in random directions, 1/3 unacknowledged, random knobs, limit 4 with at most 3 drops per pair of entities (C02 hypothesis) plus duplications and delays, paced or burst delivery (every 5th scenario: up to three files of 130-430 segments delivered in one burst, filling the daemon's per-transaction queues), 0-7 injected stray PDUs (responses to non-existent senders, PDUs naming entity 99, data/EOF/metadata of transactions nobody started, random bytes, truncated PDUs) and 0-2 replays of recorded PDUs up to 8 s later; every run ends with a probe transfer and a Report. distinct_nontrivial = distinct (config, event-order) signatures.".into(),
         exhaustive: false,
-        assumptions: vec!["unacknowledged transfers carry no delivery guarantee under loss: for them only 'a reported delivery holds the transfer's own file' and termination are judged".into(), "sequence numbers are 2 bytes wide".into()],
+        assumptions: vec!["unacknowledged transfers carry no delivery guarantee under loss: for them only 'a reported delivery holds the transfer's own file' and termination are judged".into(), "sequence numbers are 2, 4 or 8 bytes wide and start at 1 or just below the top of their width (fewer Puts than the sequence space)".into()],
         require: vec![("c11_ack_transfers_judged".into(), 2000), ("c11_stray_tasks_judged".into(), 50), ("c11_probes".into(), 100), ("c11_runs:3-daemons".into(), 50)],
         extra: vec![],
     };
